@@ -15,6 +15,8 @@ def run(tier, seed):
     # HistogramCollection: normalize_bins (shares per bin), sum, copy
     run_pool(ctx, "MC_HistPool_collq", ["New", "CollSum", "CollNormBins", "CollCopyFill", "Fill"], VIEW, [("dyadic", 0), ("ulp", 1)])
     nd_part(ctx, tier)
+    from props import collection
+    collection.run_part(ctx, tier)       # HistogramCollection: create / add / sum / normalize_* / copy / round trip / refusals
     ctx.assumptions = ["results whose denominator is a power of two are compared bit-exactly, others (division by 3, "
                        "normalisation) within 16 ulp", "scalars: python int/float, numpy float32/int16"]
     return ctx.finish("TLC enumerates chains of h*c, c*h, h*=c, h/c, h/=c, normalize (copy/inplace, percent) and the refused "
